@@ -13,7 +13,7 @@ from ..engine import Space
 PROPERTY = "C20"
 LEVEL = "model_checking"
 VARIANTS = ["fast", "tsan"]
-RULE = ("pool of 27 programs (4 of them for VMs with different operator registrations); (a) each twice; (b) all ordered pairs x {Q's VM destroyed, alive}; (c) controlled two-thread exploration for Q in the "
+RULE = ("pool of 28 programs (4 of them for VMs with different operator registrations); (a) each twice; (b) all ordered pairs x {Q's VM destroyed, alive}; (c) controlled two-thread exploration for Q in the "
         "state-touching subset x all P with <=1 (quick) / <=2 (thorough) preemptions at instruction boundaries; TSan free-running over a pair "
         "subset; states = scheduling points / VM runs, transitions = executions; non-trivial = pair with Q != P")
 ASSUMPTIONS = [
@@ -55,6 +55,10 @@ POOL.update({
     "synth-words-are-operators": "diag_log str [1 vb5 2, vu 3, vn]",
 })
 # numbers printed while PREPROCESSING (the preprocessor evaluates __EVAL through evaluate_expression, outside execute())
+# enumeration order of a map keyed by objects / groups must not depend on where they happen to be allocated
+POOL["hashmap-object-keys"] = ('private _m = createHashMap; { _m set [_x, _forEachIndex] } forEach ["Land_Test" createVehicle [0,0,0], "Land_Test" createVehicle [1,0,0], '
+                               '"Land_Test" createVehicle [2,0,0], "Land_Test" createVehicle [3,0,0], createGroup west, createGroup east, createGroup civilian]; '
+                               'diag_log str [keys _m, str _m, (keys _m) apply { _m get _x }]')
 POOL["eval-macro"] = 'diag_log str [__EVAL(1/8), __EVAL(1/3), __EVAL(100000 * 3)]'
 OPSET = {"words-are-variables": "basic", "synth-words-are-operators": "synth"}    # default: full
 NAMES = list(POOL)
@@ -147,7 +151,7 @@ def check_conc2(ws, case):
 
 def gen_tsan():
     for q in ["tofixed", "counter", "types", "groups-many", "hashmap", "format", "words-are-operators", "synth-words-are-operators"]:
-        for p in ["numbers", "counter", "types", "group", "hashmap", "define", "eval-macro", "words-are-variables", "synth-words-are-variables"]:
+        for p in ["numbers", "counter", "types", "group", "hashmap", "hashmap-object-keys", "define", "eval-macro", "words-are-variables", "synth-words-are-variables"]:
             yield [q, p]
 
 
